@@ -173,6 +173,8 @@ class PairType(MichelsonType, ADTMixin, prim='pair', args_len=None):
         return next(item for i, item in enumerate(self.iter_comb(include_nodes=True)) if i == idx)
 
     def update_comb(self, idx: int, element: MichelsonType) -> 'PairType':
+        if idx == 0:
+            return element  # type: ignore  # UPDATE 0 replaces the whole value
         if idx % 2 == 1:
             leaves = [element if 2 * i + 1 == idx else item for i, item in enumerate(self.iter_comb())]
         else:
